@@ -120,6 +120,7 @@ type World struct {
 
 	Panics []*PanicRec
 
+	nextID   int
 	timers   []*vtimer
 	timerSeq int
 	driver   chan struct{}
@@ -142,7 +143,8 @@ func NewWorld() *World {
 
 // Spawn registers a new thread.  It does not run until the scheduler picks it.
 func (w *World) Spawn(name string, fn func()) *Thread {
-	t := &Thread{ID: len(w.Threads), Name: name, w: w, wake: make(chan struct{}, 1), fn: fn}
+	t := &Thread{ID: w.nextID, Name: name, w: w, wake: make(chan struct{}, 1), fn: fn}
+	w.nextID++
 	t.Op = Op{Kind: OpStart}
 	w.Threads = append(w.Threads, t)
 	w.wg.Add(1)
@@ -170,6 +172,13 @@ func (t *Thread) main() {
 			w.Panics = append(w.Panics, p)
 		}
 		t.Done = true
+		// finished threads leave the table (ids stay unique through nextID)
+		for i, x := range w.Threads {
+			if x == t {
+				w.Threads = append(w.Threads[:i], w.Threads[i+1:]...)
+				break
+			}
+		}
 		w.handoff(t)
 	}()
 	t.fn()
